@@ -11,6 +11,7 @@ import math
 import random
 
 from ..monitors import alloc
+from .. import pollute
 from ..argvcorpus import realistic, small, TRANSFORMATIONS
 from ..cliharness import cli_formula
 
@@ -23,7 +24,8 @@ RULE = ("every family at realistic sizes (php 30x25, gphp on 40x30 left-regular 
 ASSUMPTIONS = ["documented variable counts are the closed forms listed in C10.py (taken from docstrings / help texts)",
                "clauses inserted with check=False by user code are outside the statement; the library's own check=False insertions are watched"]
 REQUIRED = ["hook_clause_events", "hook_group_events", "final_scans", "documented_counts_checked", "chains_applied",
-            "cli_entries", "opb_entries", "interleavings", "lib_entries", "builder_insertions", "cli_documented_counts_checked", "chains_after_interleaving"]
+            "cli_entries", "opb_entries", "interleavings", "lib_entries", "builder_insertions", "cli_documented_counts_checked", "chains_after_interleaving",
+            "groups_on_a_reused_graph_object", "families_on_a_reused_graph_object"]
 CASE_TIMEOUT = {"quick": 300, "thorough": 1800}
 
 
@@ -373,13 +375,56 @@ def case_interleave(ctx, rseed, count):
         K = r.choice([CNF, OPB])
         before = snapshot_events()
         hist = []
+        shared = Graph(r.randint(3, 5))              # one graph object used by several groups, edited in between
+        for _ in range(4):
+            shared.add_edge(*r.sample(range(1, shared.order() + 1), 2))
         with alloc.watch() as mon:
             F = K()
             for _ in range(r.randint(1, 10)):
                 n = F.number_of_variables()
                 op = r.choice(["clause", "clause", "raise", "variable", "block", "comb", "perm", "words", "bip", "graph",
-                               "digraph", "mapping", "binmap", "constraint", "builder", "builder"])
+                               "digraph", "mapping", "binmap", "constraint", "builder", "builder", "labels", "peek",
+                               "shared-graph", "shared-graph", "edit-graph", "edit-graph"])
                 hist.append(op)
+                if op == "labels":
+                    st, labs = ctx.call(lambda: list(F.all_variable_labels()))
+                    if st == "ok" and len(labs) != n:
+                        ctx.violation("labels:count", "history %r: %d labels for %d variables" % (hist, len(labs), n))
+                    continue
+                if op == "peek":
+                    # somebody looks at a transformed copy; the formula itself goes on growing afterwards
+                    if K is CNF and n <= 30 and len(F) <= 20 and max([len(c) for c in F] or [0]) <= 3:
+                        ctx.call(apply_chain_lib, F, [r.choice([["or", "2"], ["xor", "2"], ["flip"]])])
+                    continue
+                if op == "edit-graph":
+                    how = r.choice(["remove", "remove", "move", "switch", "add", "grow"])
+                    hist[-1] = "edit-graph:" + how
+                    E = list(shared.edges())
+                    if how == "remove" and E:
+                        shared.remove_edge(*r.choice(E))
+                    elif how == "move":
+                        pollute.move_edge(shared, r)
+                    elif how == "switch":
+                        pollute.two_switch(shared, r)
+                    elif how == "add":
+                        shared.add_edge(*r.sample(range(1, shared.order() + 1), 2))
+                    else:
+                        shared.update_vertex_number(shared.order() + 1)
+                        shared.add_edge(1, shared.order())
+                    continue
+                if op == "shared-graph":
+                    st, grp = ctx.call(F.new_graph_edges, shared)
+                    m = shared.number_of_edges()
+                    ctx.count("groups_on_a_reused_graph_object")
+                    if st == "ok" and F.number_of_variables() - n != m:
+                        ctx.violation("count:group-on-edited-graph", "history %r: new_graph_edges on a graph with %d edges added %d variables"
+                                      % (hist, m, F.number_of_variables() - n))
+                    elif st == "ok":
+                        ids = sorted(grp(u, v) for (u, v) in shared.edges())
+                        if ids != list(range(n + 1, n + m + 1)):
+                            ctx.violation("count:group-on-edited-graph", "history %r: the group's variables for the %d current edges are %r, "
+                                          "expected %d..%d" % (hist, m, ids[:8], n + 1, n + m))
+                    continue
                 if op == "builder":
                     # constraint builders called the documented way (check=True): they may mention fresh variables
                     top = n + r.choice([0, 1, 2, 4])
@@ -452,6 +497,9 @@ def case_interleave(ctx, rseed, count):
                     ctx.call(F.new_binary_mapping, r.randint(1, 3), r.randint(1, 6))
         account(ctx, before)
         ctx.count("interleavings")
+        st, labs = ctx.call(lambda: list(F.all_variable_labels()))
+        if st == "ok" and len(labs) != F.number_of_variables():
+            ctx.violation("labels:count", "history %r: %d labels for %d variables" % (hist, len(labs), F.number_of_variables()))
         report(ctx, "history %r on %s" % (hist, K.__name__), mon, F)
         if K is CNF and F.number_of_variables() <= 40 and len(F) <= 30 and max([len(c) for c in F] or [0]) <= 3:
             # a formula with such a history is a legitimate input of every transformation
@@ -472,6 +520,63 @@ def case_interleave(ctx, rseed, count):
                                   % (w2, T.number_of_variables(), n_exp, F.number_of_variables()))
         ctx.judged(("interleave", rseed, tuple(hist), K.__name__, F.number_of_variables()), nontrivial=len(F) > 0,
                    sample={"history": hist, "class": K.__name__, "variables": F.number_of_variables()})
+
+
+def case_graph_reuse(ctx, rseed, count):
+    """Families whose variables are the edges of a graph, called again on the same Graph object after it was edited
+    (an edge removed, moved, two edges switched): one variable per current edge, every one of them used."""
+    import cnfgen
+    from cnfgen.graphs import Graph
+    r = ctx.rng("c10reuse", rseed)
+    fams = [("TseitinFormula", lambda G, K: cnfgen.TseitinFormula(G, formula_class=K)),
+            ("PerfectMatchingPrinciple", lambda G, K: cnfgen.PerfectMatchingPrinciple(G, formula_class=K)),
+            ("EvenColoringFormula", lambda G, K: cnfgen.EvenColoringFormula(G, formula_class=K))]
+    from cnfgen.formula.cnf import CNF
+    from cnfgen.formula.opb import OPB
+    for _ in range(count):
+        name, gen = r.choice(fams)
+        K = r.choice([CNF, OPB])
+        n = r.randint(4, 7)
+        G = Graph(n)
+        if name == "EvenColoringFormula":
+            for v in range(1, n + 1):                 # a cycle plus chords forming cycles: all degrees even
+                G.add_edge(v, v % n + 1)
+        else:
+            for _ in range(r.randint(3, 2 * n)):
+                G.add_edge(*r.sample(range(1, n + 1), 2))
+        hist = []
+        for step in range(r.randint(2, 4)):
+            if step:
+                how = r.choice(["remove", "remove", "move", "switch"])
+                E = list(G.edges())
+                if name == "EvenColoringFormula":
+                    how = "switch"
+                if how == "remove" and len(E) > 1:
+                    G.remove_edge(*r.choice(E))
+                elif how == "move":
+                    pollute.move_edge(G, r)
+                else:
+                    pollute.two_switch(G, r)
+                hist.append(how)
+            before = snapshot_events()
+            with alloc.watch() as mon:
+                st, F = ctx.call(gen, G, K)
+            account(ctx, before)
+            where = "%s[%s] on one Graph object after %r" % (name, K.__name__, hist)
+            if st == "exc":
+                if isinstance(F, ValueError) and name == "EvenColoringFormula":
+                    break
+                ctx.violation("reuse:raises:%s" % type(F).__name__, "%s raised %r" % (where, F))
+                break
+            report(ctx, where, mon, F)
+            ctx.count("documented_counts_checked")
+            ctx.count("families_on_a_reused_graph_object")
+            if F.number_of_variables() != G.number_of_edges():
+                ctx.violation("count:family-on-edited-graph", "%s declares %d variables, the graph has %d edges"
+                              % (where, F.number_of_variables(), G.number_of_edges()))
+                break
+            ctx.judged(("reuse", name, K.__name__, rseed, tuple(hist), tuple(G.edges())), nontrivial=True,
+                       sample={"family": name, "history": list(hist), "edges": G.number_of_edges()})
 
 
 def case_repo_tests(ctx):
@@ -514,5 +619,7 @@ def workload(tier, seed):
         yield "cli", {"which": "small", "lo": lo, "hi": lo + (10 if q else step), "rseed": seed}
     for i in range(16 if q else 1000):
         yield "interleave", {"rseed": seed * 1000 + i, "count": 200}
+    for i in range(8 if q else 200):
+        yield "graph_reuse", {"rseed": seed * 1000 + i, "count": 40}
     if not q:
         yield "repo_tests", {}
